@@ -375,7 +375,7 @@ def check(pid, tier='quick', base_seed=0, runs=None, wall_cap=None, corpus=True,
     # violations: regenerate, minimise, write replay, confirm
     seen_tags = set()
     for (i, tag, msg) in sorted(tot['viol']):
-        if tag in seen_tags or len(seen_tags) >= 3:
+        if tag in seen_tags or len(seen_tags) >= 6:
             continue
         seen_tags.add(tag)
         seed = run_seed(base_seed, pid, tier, i)
